@@ -1,7 +1,7 @@
 //! C14: core program (SyltAst JSON) + choice function over its surface sites -> Sylt source text.
 //!
 //! The site keys and the paths are those of spec/SyltSurface.tla (`c@`, `t@`, `l@`, `p@`, `s@`, `b@` + path,
-//! `indent`).  The renderer follows a choice function EXACTLY: in strict mode a key that names no site of the
+//! `g@`, `o@`, `d@`, `indent`).  The renderer follows a choice function EXACTLY: in strict mode a key that names no site of the
 //! program, or an option the site does not have, is an error (never a silent fallback) - which choices are
 //! LEGAL Sylt is decided by the specification, not here.  With the empty choice function the text is
 //! byte-identical to `printer::print_program(tops, &PrintOpts::default())` (checked by the c14 recorder).
@@ -19,6 +19,9 @@ pub struct Renderer<'a> {
     depth: usize,
     unit: String,
     used: BTreeSet<String>,
+    /// SyltSurface!TrivSeqs (emitted by TLC): trivia sequence number -> sequence over "T" (end-of-line comment),
+    /// "C" (comment on a line of its own), "B" (blank line)
+    triv: &'a [Vec<String>],
     pub errors: Vec<String>,
     /// per kind/option counters of what was actually written (vacuity accounting)
     pub written: BTreeMap<String, u64>,
@@ -101,7 +104,7 @@ fn has_fn(e: &Value) -> bool {
 }
 
 impl<'a> Renderer<'a> {
-    pub fn new(ch: &'a BTreeMap<String, u64>, strict: bool) -> Self {
+    pub fn new(ch: &'a BTreeMap<String, u64>, strict: bool, triv: &'a [Vec<String>]) -> Self {
         let w = ch.get("indent").copied().unwrap_or(4);
         let unit = if w == 9 { "\t".to_string() } else { " ".repeat(w as usize) };
         let mut r = Renderer {
@@ -113,6 +116,7 @@ impl<'a> Renderer<'a> {
             depth: 0,
             unit,
             used: BTreeSet::new(),
+            triv,
             errors: Vec::new(),
             written: BTreeMap::new(),
         };
@@ -185,8 +189,9 @@ impl<'a> Renderer<'a> {
 
     // ------------------------------------------------------------ expressions
 
-    /// e at path p with `need` grammar-required parentheses; np: no redundant parentheses allowed here
-    fn expr(&mut self, e: &Value, p: &str, need: bool, np: bool) -> String {
+    /// e at path p with `need` grammar-required parentheses; np: no redundant parentheses allowed here;
+    /// inb: the parser skips newlines here (SyltSurface: inb)
+    fn expr(&mut self, e: &Value, p: &str, need: bool, np: bool, inb: bool) -> String {
         let pl = if np || !wrappable(e) {
             self.void(format!("p@{}", p));
             0
@@ -196,11 +201,65 @@ impl<'a> Renderer<'a> {
         if pl > 0 {
             self.count(format!("p={}", pl));
         }
-        let mut t = self.expr_inner(e, p);
-        for _ in 0..(pl + need as u64) {
-            t = format!("({})", t);
+        let total = pl + need as u64;
+        let g = if total > 0 { self.layout_opt(format!("g@{}", p), 5, false, "group") } else { self.void(format!("g@{}", p)); 0 };
+        let mut t = self.expr_inner(e, p, inb || total > 0);
+        for i in 0..total {
+            if i + 1 == total && g != 0 {
+                // the outermost pair carries the layout
+                let (mask, seq) = self.decode(g);
+                let ind2 = self.ind_at(self.depth + 2);
+                let ind1 = self.ind_at(self.depth + 1);
+                let open = if mask & 1 != 0 { self.gap(&seq, &ind2) } else { String::new() };
+                let close = if mask & 4 != 0 { self.gap(&seq, &ind1) } else { String::new() };
+                t = format!("({}{}{})", open, t, close);
+            } else {
+                t = format!("({})", t);
+            }
         }
         t
+    }
+
+    fn decode(&self, v: u64) -> (u64, Vec<String>) {
+        (v % 8, self.triv.get((v / 8) as usize).cloned().unwrap_or_default())
+    }
+    /// what stands at a gap that holds a line break: [end-of-line comment] newline {comment line | blank line} indentation
+    fn gap(&self, seq: &[String], ind: &str) -> String {
+        let (eol, lines) = self.trivia(seq, ind);
+        format!("{}\n{}{}", eol, lines, ind)
+    }
+    fn trivia(&self, seq: &[String], ind: &str) -> (String, String) {
+        let mut eol = String::new();
+        let mut lines = String::new();
+        for (i, x) in seq.iter().enumerate() {
+            match x.as_str() {
+                "T" if i == 0 => eol.push_str(" // end of line"),
+                "C" => lines.push_str(&format!("{}// a line of its own\n", ind)),
+                "B" => lines.push('\n'),
+                other => panic!("surface: bad trivia element {} at {}", other, i),
+            }
+        }
+        (eol, lines)
+    }
+    /// layout value of a bracket-like site: mask bits within `bits`, trivia number in range; `always`: the construct
+    /// is broken over lines anyway, so a value without trivia is void
+    fn layout_opt(&mut self, key: String, bits: u64, always: bool, class: &str) -> u64 {
+        let v = self.opt(key.clone(), 8 * self.triv.len().max(1) as u64);
+        if v == 0 {
+            return 0;
+        }
+        let (mask, t) = (v % 8, v / 8);
+        if mask == 0 || mask & !bits != 0 || (always && t == 0) {
+            self.errors.push(format!("layout value {} at {} is void for this site", v, key));
+            return 0;
+        }
+        for bit in [1u64, 2, 4] {
+            if mask & bit != 0 {
+                self.count(format!("gap&{}:{}", bit, class));
+            }
+        }
+        self.count(format!("triv:{}={}", class, t));
+        v
     }
 
     fn block_lines(&mut self, stmts: &[Value], pre: &str, tail_as_ret: bool) -> String {
@@ -215,70 +274,70 @@ impl<'a> Renderer<'a> {
         std::mem::replace(&mut self.out, saved)
     }
 
-    /// comma-separated items inside a bracket pair with layout mask `brk`
-    fn brackets(&mut self, open: &str, items: Vec<String>, close: &str, brk: u64) -> String {
-        if brk == 0 || items.is_empty() {
+    /// comma-separated items inside a bracket pair with layout value `v` (mask + 8 * trivia)
+    fn brackets(&mut self, open: &str, items: Vec<String>, close: &str, v: u64) -> String {
+        if v == 0 || items.is_empty() {
             return format!("{}{}{}", open, items.join(", "), close);
         }
-        let cmt = if brk & 8 != 0 { " // in brackets" } else { "" };
-        let nl = if brk & 16 != 0 { "\n\n" } else { "\n" };
+        let (mask, seq) = self.decode(v);
         let ind2 = self.ind_at(self.depth + 2);
         let ind1 = self.ind_at(self.depth + 1);
         let mut t = String::from(open);
-        if brk & 1 != 0 {
-            t.push_str(cmt);
-            t.push_str(nl);
-            t.push_str(&ind2);
+        if mask & 1 != 0 {
+            t.push_str(&self.gap(&seq, &ind2));
         }
         let n = items.len();
         for (i, it) in items.iter().enumerate() {
             t.push_str(it);
             if i + 1 < n {
                 t.push(',');
-                if brk & 2 != 0 {
-                    t.push_str(cmt);
-                    t.push_str(nl);
-                    t.push_str(&ind2);
+                if mask & 2 != 0 {
+                    t.push_str(&self.gap(&seq, &ind2));
                 } else {
                     t.push(' ');
                 }
             }
         }
-        if brk & 4 != 0 {
-            t.push_str(cmt);
-            t.push_str(nl);
-            t.push_str(&ind1);
+        if mask & 4 != 0 {
+            t.push_str(&self.gap(&seq, &ind1));
         }
         t.push_str(close);
         t
     }
 
-    fn bracket_opt(&mut self, p: &str, exists: bool) -> u64 {
+    fn bracket_opt(&mut self, p: &str, exists: bool, class: &str) -> u64 {
         let key = format!("b@{}", p);
         if !exists {
             self.void(key);
             return 0;
         }
-        let v = self.opt(key.clone(), 32);
-        if v != 0 && v % 8 == 0 {
-            self.errors.push(format!("bracket mask {} at {} has no newline bit", v, key));
-        }
-        if v != 0 {
-            for bit in [1u64, 2, 4, 8, 16] {
-                if v & bit != 0 {
-                    self.count(format!("b&{}", bit));
-                }
-            }
-        }
-        v
+        self.layout_opt(key, 7, false, class)
     }
 
-    fn items(&mut self, es: &[Value], from: usize, p: &str) -> Vec<String> {
+    fn items(&mut self, es: &[Value], from: usize, p: &str, inb: bool) -> Vec<String> {
         let mut out = Vec::new();
         for (i, a) in es.iter().enumerate().skip(from) {
-            out.push(self.expr(a, &format!("{}.g{}", p, i + 1), need_arg(a), false));
+            out.push(self.expr(a, &format!("{}.g{}", p, i + 1), need_arg(a), false, inb));
         }
         out
+    }
+
+    /// arguments of a prime call: where newlines are skipped anyway they may be broken after the commas (mask 2)
+    fn prime_items(&mut self, items: Vec<String>, p: &str, inb: bool) -> String {
+        let key = format!("b@{}", p);
+        // (the raw choices of the token-model replay give one mask to all bracket sites: void on a prime call)
+        if !(inb && items.len() >= 2) || !self.strict {
+            self.void(key);
+            return items.join(", ");
+        }
+        let v = self.layout_opt(key, 2, false, "prime");
+        if v == 0 {
+            return items.join(", ");
+        }
+        let (_, seq) = self.decode(v);
+        let ind2 = self.ind_at(self.depth + 2);
+        let sep = format!(",{}", self.gap(&seq, &ind2));
+        items.join(&sep)
     }
 
     fn fn_text(&mut self, e: &Value, p: &str) -> String {
@@ -320,7 +379,7 @@ impl<'a> Renderer<'a> {
         format!("{}\n{}{}end", head, text, self.ind_at(self.depth))
     }
 
-    fn call_text(&mut self, e: &Value, p: &str) -> String {
+    fn call_text(&mut self, e: &Value, p: &str, inb: bool) -> String {
         let args = arr(e, "args");
         let n = args.len();
         let f = &e["f"];
@@ -333,36 +392,36 @@ impl<'a> Renderer<'a> {
         };
         let c = self.opt(format!("c@{}", p), nopts);
         self.count(format!("c={}", c));
-        let callee = self.expr(f, &format!("{}.f", p), c == 0 && need_base(f), c != 0);
+        let callee = self.expr(f, &format!("{}.f", p), c == 0 && need_base(f), c != 0, inb);
         match c {
             0 => {
-                let brk = self.bracket_opt(p, n >= 1);
-                let items = self.items(args, 0, p);
+                let brk = self.bracket_opt(p, n >= 1, "call");
+                let items = self.items(args, 0, p, true);
                 format!("{}{}", callee, self.brackets("(", items, ")", brk))
             }
             1 => {
-                self.bracket_opt(p, false);
-                let items = self.items(args, 0, p);
+                let items = self.items(args, 0, p, inb);
                 if items.is_empty() {
+                    self.void(format!("b@{}", p));
                     format!("{}'", callee)
                 } else {
-                    format!("{}' {}", callee, items.join(", "))
+                    format!("{}' {}", callee, self.prime_items(items, p, inb))
                 }
             }
             2 | 3 => {
                 let a1 = &args[0];
-                let first = self.expr(a1, &format!("{}.g1", p), need_arrow_lhs(a1) || need_arg(a1), false);
+                let first = self.expr(a1, &format!("{}.g1", p), need_arrow_lhs(a1) || need_arg(a1), false, inb);
                 if c == 2 {
-                    let brk = self.bracket_opt(p, n >= 2);
-                    let items = self.items(args, 1, p);
+                    let brk = self.bracket_opt(p, n >= 2, "call");
+                    let items = self.items(args, 1, p, true);
                     format!("{} -> {}{}", first, callee, self.brackets("(", items, ")", brk))
                 } else {
-                    self.bracket_opt(p, false);
-                    let items = self.items(args, 1, p);
+                    let items = self.items(args, 1, p, inb);
                     if items.is_empty() {
+                        self.void(format!("b@{}", p));
                         format!("{} -> {}'", first, callee)
                     } else {
-                        format!("{} -> {}' {}", first, callee, items.join(", "))
+                        format!("{} -> {}' {}", first, callee, self.prime_items(items, p, inb))
                     }
                 }
             }
@@ -370,7 +429,7 @@ impl<'a> Renderer<'a> {
         }
     }
 
-    fn expr_inner(&mut self, e: &Value, p: &str) -> String {
+    fn expr_inner(&mut self, e: &Value, p: &str, inb: bool) -> String {
         match kind(e) {
             "int" => format!("{}", e["v"].as_i64().unwrap()),
             "float" => dyadic_text(e["n"].as_i64().unwrap(), e["d"].as_u64().unwrap() as u32),
@@ -383,13 +442,20 @@ impl<'a> Renderer<'a> {
             "bin" => {
                 let op = s(e, "op");
                 let lv = level(op);
-                let l = self.expr(&e["l"], &format!("{}.l", p), need_operand(&e["l"], lv, false), false);
-                let r = self.expr(&e["r"], &format!("{}.r", p), need_operand(&e["r"], lv, true), false);
-                format!("{} {} {}", l, op, r)
+                let o = if inb { self.layout_opt(format!("o@{}", p), 2, false, "op") } else { self.void(format!("o@{}", p)); 0 };
+                let l = self.expr(&e["l"], &format!("{}.l", p), need_operand(&e["l"], lv, false), false, inb);
+                let r = self.expr(&e["r"], &format!("{}.r", p), need_operand(&e["r"], lv, true), false, inb);
+                if o != 0 {
+                    let (_, seq) = self.decode(o);
+                    let ind2 = self.ind_at(self.depth + 2);
+                    format!("{} {}{}{}", l, op, self.gap(&seq, &ind2), r)
+                } else {
+                    format!("{} {} {}", l, op, r)
+                }
             }
             "un" => {
                 let op = s(e, "op");
-                let t = self.expr(&e["a"], &format!("{}.a", p), need_un_operand(&e["a"]), false);
+                let t = self.expr(&e["a"], &format!("{}.a", p), need_un_operand(&e["a"]), false, inb);
                 if op == "not" {
                     format!("not {}", t)
                 } else {
@@ -404,7 +470,7 @@ impl<'a> Renderer<'a> {
                     if b(arm, "els") {
                         text.push_str(&format!("{}else\n", self.ind_at(self.depth)));
                     } else {
-                        let c = self.expr(&arm["c"], &format!("{}.c", ap), false, false);
+                        let c = self.expr(&arm["c"], &format!("{}.c", ap), false, false, true);
                         if i == 0 {
                             text.push_str(&format!("if {} do\n", c));
                         } else {
@@ -418,7 +484,7 @@ impl<'a> Renderer<'a> {
                 text
             }
             "case" => {
-                let m = self.expr(&e["e"], &format!("{}.e", p), false, false);
+                let m = self.expr(&e["e"], &format!("{}.e", p), false, false, true);
                 let mut text = format!("case {} do\n", m);
                 self.depth += 1;
                 for (i, arm) in arr(e, "arms").clone().iter().enumerate() {
@@ -443,38 +509,47 @@ impl<'a> Renderer<'a> {
                 text
             }
             "fn" => self.fn_text(e, p),
-            "call" => self.call_text(e, p),
+            "call" => self.call_text(e, p, inb),
             "tuple" => {
                 let es = arr(e, "es");
                 if es.len() == 1 {
-                    self.bracket_opt(p, false);
-                    let t = self.expr(&es[0], &format!("{}.g1", p), need_arg(&es[0]), false);
+                    self.bracket_opt(p, false, "tuple");
+                    let t = self.expr(&es[0], &format!("{}.g1", p), need_arg(&es[0]), false, true);
                     format!("({},)", t)
                 } else {
-                    let brk = self.bracket_opt(p, es.len() >= 2);
-                    let items = self.items(es, 0, p);
+                    let brk = self.bracket_opt(p, es.len() >= 2, "tuple");
+                    let items = self.items(es, 0, p, true);
                     self.brackets("(", items, ")", brk)
                 }
             }
             "list" => {
                 let es = arr(e, "es");
-                let brk = self.bracket_opt(p, !es.is_empty());
-                let items = self.items(es, 0, p);
+                let brk = self.bracket_opt(p, !es.is_empty(), "list");
+                let items = self.items(es, 0, p, true);
                 self.brackets("[", items, "]", brk)
             }
             "blob" => {
-                let mut text = format!("{} {{\n", s(e, "name"));
+                // always written over several lines: the layout value only places trivia at the gaps
+                let fields = arr(e, "fields").clone();
+                let lay = if fields.is_empty() { self.void(format!("b@{}", p)); 0 } else { self.layout_opt(format!("b@{}", p), 7, true, "blob") };
+                let (mask, seq) = self.decode(lay);
                 self.depth += 1;
-                for (i, f) in arr(e, "fields").clone().iter().enumerate() {
-                    let v = self.expr(&f["e"], &format!("{}.g{}", p, i + 1), need_field(&f["e"]), false);
-                    text.push_str(&format!("{}{}: {},\n", self.ind_at(self.depth), s(f, "f"), v));
+                let ind = self.ind_at(self.depth);
+                let (eol, lines) = self.trivia(&seq, &ind);
+                let at = |bit: u64| if mask & bit != 0 { (eol.as_str(), lines.as_str()) } else { ("", "") };
+                let mut text = format!("{} {{{}\n{}", s(e, "name"), at(1).0, at(1).1);
+                let n = fields.len();
+                for (i, f) in fields.iter().enumerate() {
+                    let v = self.expr(&f["e"], &format!("{}.g{}", p, i + 1), need_field(&f["e"]), false, true);
+                    let g = if i + 1 < n { at(2) } else { at(4) };
+                    text.push_str(&format!("{}{}: {},{}\n{}", ind, s(f, "f"), v, g.0, g.1));
                 }
                 self.depth -= 1;
                 text.push_str(&format!("{}}}", self.ind_at(self.depth)));
                 text
             }
             "fld" => {
-                let base = self.expr(&e["e"], &format!("{}.e", p), need_base(&e["e"]), false);
+                let base = self.expr(&e["e"], &format!("{}.e", p), need_base(&e["e"]), false, inb);
                 // keep the tokens apart: `2.n` would lex as the float `2.` (only reachable in illegal raw choices
                 // of the token-model replay, where a prime call's last argument ends right before the dot)
                 let word: String = base.chars().rev().take_while(|c| c.is_ascii_alphanumeric() || *c == '_').collect();
@@ -482,12 +557,12 @@ impl<'a> Renderer<'a> {
                 format!("{}{}.{}", base, sep, s(e, "f"))
             }
             "idx" => {
-                let base = self.expr(&e["e"], &format!("{}.e", p), need_base(&e["e"]), false);
+                let base = self.expr(&e["e"], &format!("{}.e", p), need_base(&e["e"]), false, inb);
                 format!("{}[{}]", base, e["i"].as_i64().unwrap())
             }
             "variant" => {
                 if b(e, "has") {
-                    let pl = self.expr(&e["e"], &format!("{}.e", p), need_arg(&e["e"]), false);
+                    let pl = self.expr(&e["e"], &format!("{}.e", p), need_arg(&e["e"]), false, inb);
                     format!("{}.{} {}", s(e, "enum"), s(e, "v"), pl)
                 } else {
                     format!("{}.{}", s(e, "enum"), s(e, "v"))
@@ -505,7 +580,7 @@ impl<'a> Renderer<'a> {
         let konst = s(st, "kind") == "const";
         let is_fn = st["e"]["k"] == "fn";
         let annotated = Self::has_ty(&st["ty"]) && !is_fn;
-        let value = self.expr(&st["e"], &format!("{}.e", p), false, false);
+        let value = self.expr(&st["e"], &format!("{}.e", p), false, false, false);
         if annotated {
             format!("{}: {} {} {}", name, self.ty(&st["ty"]), if konst { ":" } else { "=" }, value)
         } else {
@@ -538,12 +613,12 @@ impl<'a> Renderer<'a> {
                         if !matches!(kind(&t["e"]), "var" | "self") {
                             panic!("surface: assignment target base must be a variable or self");
                         }
-                        let base = self.expr(&t["e"], &format!("{}.t", p), false, true);
+                        let base = self.expr(&t["e"], &format!("{}.t", p), false, true, false);
                         format!("{}.{}", base, s(t, "f"))
                     }
                     other => panic!("surface: bad assignment target {}", other),
                 };
-                let v = self.expr(&st["e"], &format!("{}.e", p), false, false);
+                let v = self.expr(&st["e"], &format!("{}.e", p), false, false, false);
                 format!("{} {} {}", target, s(st, "op"), v)
             }
             "loop" => {
@@ -561,7 +636,7 @@ impl<'a> Renderer<'a> {
                     self.void(format!("p@{}.c", p));
                     "loop do".to_string()
                 } else {
-                    format!("loop {} do", self.expr(c, &format!("{}.c", p), false, false))
+                    format!("loop {} do", self.expr(c, &format!("{}.c", p), false, false, false))
                 };
                 let body = self.block_lines(arr(st, "body"), &format!("{}.s", p), false);
                 format!("{}\n{}{}end", head, body, self.ind_at(self.depth))
@@ -570,7 +645,7 @@ impl<'a> Renderer<'a> {
             "continue" => "continue".into(),
             "ret" => {
                 if b(st, "has") {
-                    format!("ret {}", self.expr(&st["e"], &format!("{}.e", p), false, false))
+                    format!("ret {}", self.expr(&st["e"], &format!("{}.e", p), false, false, false))
                 } else {
                     "ret".into()
                 }
@@ -580,7 +655,7 @@ impl<'a> Renderer<'a> {
                 format!("do\n{}{}end", body, self.ind_at(self.depth))
             }
             "expr" => {
-                let t = self.expr(&st["e"], &format!("{}.e", p), false, false);
+                let t = self.expr(&st["e"], &format!("{}.e", p), false, false, false);
                 if tail_as_ret {
                     format!("ret {}", t)
                 } else {
@@ -604,25 +679,40 @@ impl<'a> Renderer<'a> {
     fn top(&mut self, t: &Value, p: &str) {
         match kind(t) {
             "def" => self.stmt(t, p, false),
-            "enum" => {
-                let mut text = format!("{} :: enum\n", s(t, "name"));
-                for v in arr(t, "variants") {
-                    if b(v, "has") {
-                        text.push_str(&format!("    {} {},\n", s(v, "v"), self.ty(&v["ty"])));
-                    } else {
-                        text.push_str(&format!("    {},\n", s(v, "v")));
-                    }
+            "enum" | "blobdecl" => {
+                // always written over several lines: the layout value only places trivia at the gaps
+                let is_enum = kind(t) == "enum";
+                let items: Vec<String> = if is_enum {
+                    arr(t, "variants")
+                        .iter()
+                        .map(|v| if b(v, "has") { format!("{} {}", s(v, "v"), self.ty(&v["ty"])) } else { s(v, "v").to_string() })
+                        .collect()
+                } else {
+                    arr(t, "fields").iter().map(|f| format!("{}: {}", s(f, "f"), self.ty(&f["ty"]))).collect()
+                };
+                let lay = if items.is_empty() {
+                    self.void(format!("d@{}", p));
+                    0
+                } else {
+                    self.layout_opt(format!("d@{}", p), 7, true, if is_enum { "enum" } else { "blobdecl" })
+                };
+                let (mask, seq) = self.decode(lay);
+                let (eol, lines) = self.trivia(&seq, "    ");
+                let at = |bit: u64| if mask & bit != 0 { (eol.as_str(), lines.as_str()) } else { ("", "") };
+                let mut text = if is_enum { format!("{} :: enum{}\n{}", s(t, "name"), at(1).0, at(1).1) } else { format!("{} :: blob {{{}\n{}", s(t, "name"), at(1).0, at(1).1) };
+                let n = items.len();
+                for (i, it) in items.iter().enumerate() {
+                    let g = if i + 1 < n { at(2) } else { at(4) };
+                    text.push_str(&format!("    {},{}\n{}", it, g.0, g.1));
                 }
-                text.push_str("end\n");
+                text.push_str(if is_enum { "end\n" } else { "}\n" });
                 self.out.push_str(&text);
             }
-            "blobdecl" => {
-                let mut text = format!("{} :: blob {{\n", s(t, "name"));
-                for f in arr(t, "fields") {
-                    text.push_str(&format!("    {}: {},\n", s(f, "f"), self.ty(&f["ty"])));
-                }
-                text.push_str("}\n");
-                self.out.push_str(&text);
+            "fromuse" => {
+                let names: Vec<String> = arr(t, "names").iter().map(|n| n.as_str().unwrap().to_string()).collect();
+                let lay = self.layout_opt(format!("d@{}", p), 7, false, "fromuse");
+                let list = self.brackets("(", names, ")", lay);
+                self.out.push_str(&format!("from {} use {}\n", s(t, "path"), list));
             }
             "raw" => {
                 self.out.push_str(s(t, "text"));
@@ -649,6 +739,13 @@ impl<'a> Renderer<'a> {
     }
 }
 
+/// SyltSurface!TrivSeqs as emitted by TLC (JSON array of arrays of "T" / "C" / "B")
+pub fn triv_of(v: &Value) -> Vec<Vec<String>> {
+    v.as_array()
+        .map(|a| a.iter().map(|x| x.as_array().map(|y| y.iter().map(|z| z.as_str().unwrap().to_string()).collect()).unwrap_or_default()).collect())
+        .unwrap_or_else(|| vec![vec![]])
+}
+
 pub fn choice_of(v: &Value) -> BTreeMap<String, u64> {
     let mut m = BTreeMap::new();
     if let Some(o) = v.as_object() {
@@ -661,8 +758,13 @@ pub fn choice_of(v: &Value) -> BTreeMap<String, u64> {
 
 /// Render a whole program; sites of tops[from-1..] may carry choices (1-based `from` as in the specification).
 /// Returns the text and the per-option counters, or the list of choices the renderer could not honour.
-pub fn render_program(tops: &[Value], ch: &BTreeMap<String, u64>, strict: bool) -> Result<(String, BTreeMap<String, u64>), String> {
-    let mut r = Renderer::new(ch, strict);
+pub fn render_program(
+    tops: &[Value],
+    ch: &BTreeMap<String, u64>,
+    strict: bool,
+    triv: &[Vec<String>],
+) -> Result<(String, BTreeMap<String, u64>), String> {
+    let mut r = Renderer::new(ch, strict, triv);
     r.collect_hints(tops);
     for (i, t) in tops.iter().enumerate() {
         r.top(t, &format!("t{}", i + 1));
@@ -673,9 +775,10 @@ pub fn render_program(tops: &[Value], ch: &BTreeMap<String, u64>, strict: bool) 
 /// Render `start :: fn do <expression statement e at statement path p> end` (token-model replay; not strict:
 /// a raw choice may carry a bracket mask for a call that is not written with brackets).
 pub fn render_expr_stmt(e: &Value, p: &str, ch: &BTreeMap<String, u64>) -> Result<String, String> {
-    let mut r = Renderer::new(ch, false);
+    let triv: Vec<Vec<String>> = vec![vec![]];
+    let mut r = Renderer::new(ch, false, &triv);
     r.depth = 1;
-    let t = r.expr(e, &format!("{}.e", p), false, false);
+    let t = r.expr(e, &format!("{}.e", p), false, false, false);
     let ind = r.ind_at(1);
     if !r.errors.is_empty() {
         return Err(r.errors.join("; "));
